@@ -2,7 +2,9 @@ package rig
 
 import (
 	"fmt"
+	"net"
 	"net/http"
+	"strings"
 	"time"
 
 	"verifharness/ref/hellogen"
@@ -17,6 +19,8 @@ type ConnScript struct {
 	NReq       int           `json:"nreq"`
 	Custom     bool          `json:"custom_injector"` // default injectors + one custom injector
 	PeerIP     string        `json:"peer_ip,omitempty"`
+	// ExtraHeaders are added to every request (HTTP/2: names are sent lower-cased).
+	ExtraHeaders [][2]string `json:"extra_headers,omitempty"`
 }
 
 type ConnResult struct {
@@ -81,7 +85,11 @@ func (h *helloSplitter) Write(b []byte) (int, error) {
 func RunConn(p *Proxy, s ConnScript, tag string) *ConnResult {
 	res := &ConnResult{}
 	before := p.Backend.Count()
-	raw, _, err := p.Ln.Dial(DialOpts{})
+	var do DialOpts
+	if s.PeerIP != "" {
+		do.Remote = &net.TCPAddr{IP: net.ParseIP(s.PeerIP), Port: 40000}
+	}
+	raw, _, err := p.Ln.Dial(do)
 	if err != nil {
 		res.HandshakeErr = err
 		return res
@@ -109,7 +117,11 @@ func RunConn(p *Proxy, s ConnScript, tag string) *ConnResult {
 		peer.Fr.WriteSettings()
 		for i := 0; i < s.NReq; i++ {
 			sid := uint32(1 + 2*i)
-			err := peer.WriteRequestHeaders(sid, [][2]string{{":method", "GET"}, {":scheme", "https"}, {":authority", "example.com"}, {":path", fmt.Sprintf("/%s/%d", tag, i)}}, true, nil, nil)
+			fields := [][2]string{{":method", "GET"}, {":scheme", "https"}, {":authority", "example.com"}, {":path", fmt.Sprintf("/%s/%d", tag, i)}}
+			for _, h := range s.ExtraHeaders {
+				fields = append(fields, [2]string{strings.ToLower(h[0]), h[1]})
+			}
+			err := peer.WriteRequestHeaders(sid, fields, true, nil, nil)
 			if err != nil {
 				res.Err = "h2 write: " + err.Error()
 				break
@@ -130,7 +142,11 @@ func RunConn(p *Proxy, s ConnScript, tag string) *ConnResult {
 	} else {
 		h := NewH1(c.Conn)
 		for i := 0; i < s.NReq; i++ {
-			r, err := h.Do([]byte(fmt.Sprintf("GET /%s/%d HTTP/1.1\r\nHost: example.com\r\n\r\n", tag, i)), "GET")
+			extra := ""
+			for _, hd := range s.ExtraHeaders {
+				extra += hd[0] + ": " + hd[1] + "\r\n"
+			}
+			r, err := h.Do([]byte(fmt.Sprintf("GET /%s/%d HTTP/1.1\r\nHost: example.com\r\n%s\r\n", tag, i, extra)), "GET")
 			if err != nil {
 				res.Err = "h1: " + err.Error()
 				break
